@@ -166,12 +166,29 @@ structure ComCfg where
   minCommission : Int
   maxVotingPower : Int
   unwrap : Bool
+  cumulative : Bool     -- (re)delegations judged with the amounts admitted earlier in the transaction
   deriving Repr
 
 def genComCfg : ComCfg :=
   { minCommission := Sif.Generated.Ante.minCommission.getD 0
     maxVotingPower := Sif.Generated.Ante.maxVotingPower.getD 0
-    unwrap := Sif.Generated.Ante.commissionUnwrapsExec == some true }
+    unwrap := Sif.Generated.Ante.commissionUnwrapsExec == some true
+    cumulative := Sif.Generated.Ante.commissionCumulative == some true }
+
+/-- `pendingStake`: what the messages validated so far add once they execute — tokens per
+    destination validator (a Go map, here the list of additions) and newly delegated tokens in total -/
+structure Pending where
+  byVal : List (String × Int)
+  total : Int
+  deriving Repr, Inhabited
+
+def Pending.empty : Pending := ⟨[], 0⟩
+
+/-- `pending.validator(addr)` -/
+def Pending.get (p : Pending) (v : String) : Int := ((p.byVal.filter (fun e => e.1 = v)).map (·.2)).sum
+
+/-- `pending.add(addr, validatorAmount, totalAmount)` -/
+def Pending.add (p : Pending) (v : String) (a t : Int) : Pending := ⟨(v, a) :: p.byVal, p.total + t⟩
 
 /-- `projectedValidatorTokens.Quo(projectedTotalDelegatedTokens).Mul(sdk.NewDec(100))` with
     `NewDecFromInt` (unchecked) and `Add`/`Quo`/`Mul` (315-bit check, division by zero) -/
@@ -179,45 +196,54 @@ def projected (v t : Dec) : M Dec := do
   let q ← Dec.quo v t
   Dec.mul q (Dec.ofInt 100)
 
-def projDelegate (tok total amt : Int) : M Dec := do
-  let t ← Dec.add (Dec.ofInt total) (Dec.ofInt amt)
-  let v ← Dec.add (Dec.ofInt tok) (Dec.ofInt amt)
+/-- `calculateProjectedVotingPower`: `vAmt` is added to the validator's tokens, `tAmt` to the total -/
+def projectedPower (tok total vAmt tAmt : Int) : M Dec := do
+  let t ← Dec.add (Dec.ofInt total) (Dec.ofInt tAmt)
+  let v ← Dec.add (Dec.ofInt tok) (Dec.ofInt vAmt)
   projected v t
-
-def projRedelegate (tok total amt : Int) : M Dec := do
-  let v ← Dec.add (Dec.ofInt tok) (Dec.ofInt amt)
-  projected v (Dec.ofInt total)
 
 def belowCap (cfg : ComCfg) (p : M Dec) : M Bool :=
   p.map (fun d => !decide (cfg.maxVotingPower ≤ d.i))
 
-/-- `validateMsg` on one non-wrapper message: `.ok true` = nil error, `.ok false` = error, `.error` = panic -/
-def validateBody (cfg : ComCfg) (env : StakeEnv) : Body → M Bool
-  | .other => .ok true
-  | .createVal r => .ok (!decide (r < cfg.minCommission))
-  | .editVal none => .ok true
-  | .editVal (some r) => .ok (!decide (r < cfg.minCommission))
+/-- what the projection reads: the pending stake, or nothing if the code judges per message -/
+def ComCfg.view (cfg : ComCfg) (p : Pending) : Pending := if cfg.cumulative then p else Pending.empty
+
+def admitIf (ok : M Bool) (p' : Pending) : M (Option Pending) := ok.map (fun b => if b then some p' else none)
+
+/-- `validateMsg` on one non-wrapper message, given what the earlier messages of the transaction
+    already admitted: `.ok (some p')` = nil error and the updated pending stake, `.ok none` = error,
+    `.error` = panic -/
+def validateBody (cfg : ComCfg) (env : StakeEnv) (p : Pending) : Body → M (Option Pending)
+  | .other => .ok (some p)
+  | .createVal r => .ok (if r < cfg.minCommission then none else some p)
+  | .editVal none => .ok (some p)
+  | .editVal (some r) => .ok (if r < cfg.minCommission then none else some p)
   | .delegate v amt =>
     match env.tokens v with
-    | none => .ok false
-    | some tok => belowCap cfg (projDelegate tok env.total amt)
+    | none => .ok none
+    | some tok => admitIf (belowCap cfg (projectedPower tok env.total ((cfg.view p).get v + amt) ((cfg.view p).total + amt))) (p.add v amt amt)
   | .redelegate src dst amt =>
     match env.tokens dst with
-    | none => .ok false
-    | some tok => belowCap cfg (projRedelegate tok env.total (if src = dst then 0 else amt))
+    | none => .ok none
+    | some tok =>
+      admitIf (belowCap cfg (projectedPower tok env.total ((cfg.view p).get dst + (if src = dst then 0 else amt)) (cfg.view p).total))
+        (p.add dst (if src = dst then 0 else amt) 0)
 
-/-- the loop: stop at the first error or panic -/
-def validateAll (cfg : ComCfg) (env : StakeEnv) : List Leaf → M Bool
-  | [] => .ok true
-  | l :: ls =>
-    match validateBody cfg env l.body with
-    | .ok true => validateAll cfg env ls
+/-- the loop: stop at the first error or panic, thread the pending stake -/
+def validateAll (cfg : ComCfg) (env : StakeEnv) : Pending → List Leaf → M (Option Pending)
+  | p, [] => .ok (some p)
+  | p, l :: ls =>
+    match validateBody cfg env p l.body with
+    | .ok (some p') => validateAll cfg env p' ls
     | r => r
 
 def comMsgs (cfg : ComCfg) (ms : List Msg) : List Leaf :=
   if cfg.unwrap then leavesList ms else topList ms
 
+def comRun (cfg : ComCfg) (env : StakeEnv) (ms : List Msg) : M (Option Pending) :=
+  validateAll cfg env Pending.empty (comMsgs cfg ms)
+
 def comDecide (cfg : ComCfg) (env : StakeEnv) (ms : List Msg) : M Bool :=
-  validateAll cfg env (comMsgs cfg ms)
+  (comRun cfg env ms).map Option.isSome
 
 end Sif.Ante
